@@ -45,7 +45,47 @@ pub fn client_args(rng: &mut Rng, port: u16, proto: P, key: Option<&[u8]>, n: u3
     a
 }
 
+/// every (path depth 0..=6, index below 2^depth) x protocol x key option: 127 x 2 x 3
+pub const POSITIONS: u64 = 127 * 2 * 3;
+
+fn gen_position(seed: u64, k: u64) -> Plan {
+    let mut rng = Rng::derive(seed, "c03-pos");
+    let mut plan = Plan::new("C03", "c03.every_batch_position", seed);
+    world_knobs(&mut rng, &mut plan, false);
+    let key_opt = k % 3;
+    let proto = if (k / 3) % 2 == 0 { P::Classic } else { P::Ietf };
+    let mut pos = k / 6; // 0..127
+    let mut depth = 0u32;
+    while pos >= (1u64 << depth) {
+        pos -= 1u64 << depth;
+        depth += 1;
+    }
+    plan.params.insert("depth".into(), depth as i64);
+    plan.params.insert("index".into(), pos as i64);
+    let port = 4000 + rng.below(1000) as u16;
+    let slot = SlotSpec { index: pos as u32, depth, midp_secs: pick_midp_secs(&mut rng), midp_sub_us: rng.below(1_000_000) as u32, forgeries: vec![], sibling_seed: rng.next_u64(), delay_us: 0 };
+    let spec = RefServerSpec { port, long_seed: rng.next_u64(), online_seed: rng.next_u64(), slots: vec![slot] };
+    let pk = {
+        let mut s = [0u8; 32];
+        Rng::derive(spec.long_seed, "ref-long").fill(&mut s);
+        r::pubkey_from_seed(&s)
+    };
+    plan.step(0, Action::StartRefServer(spec));
+    // key option: none / hex / base64 (client_args picks the encoding at random: force it here)
+    let mut args = client_args(&mut rng, port, proto, None, 1, 3);
+    if key_opt > 0 {
+        args.push("-k".into());
+        args.push(if key_opt == 1 { r::hex_lower(&pk) } else { r::base64(&pk, false, true) });
+    }
+    plan.step(1000, Action::RunClient { argv: args });
+    plan.world.horizon_ms = 4_000;
+    plan
+}
+
 fn gen(seed: u64, idx: u64, _tier: Tier) -> Plan {
+    if idx < POSITIONS {
+        return gen_position(seed, idx);
+    }
     let mut rng = Rng::derive(seed, "c03");
     let real = idx % 3 == 2;
     let mut plan = Plan::new("C03", if real { "c03.real_server" } else { "c03.reference_server" }, seed);
@@ -179,6 +219,9 @@ fn check(plan: &Plan, out: &RunOut) -> CheckOut {
                 if depth >= 6 {
                     co.probe("path_depth_6");
                 }
+                if plan.scenario == "c03.every_batch_position" {
+                    co.probe(&format!("position_depth_{}", depth));
+                }
                 if m.get(r::INDX).map(|i| i != [0, 0, 0, 0]).unwrap_or(false) {
                     co.probe("nonzero_index");
                 }
@@ -208,7 +251,7 @@ pub fn property() -> Property {
         gen,
         check,
         finalize: no_finalize,
-        rule: "one evaluation = one simulated execution of the real client main() (seeded -p 0|13, -k none|hex|base64, -n 1..8, -z or explicit -f, -j/-v) against (a) an honest reference responder that signs a chosen midpoint (epoch..year 9999) and places each request at a chosen index 0..63 of a batch of depth 0..6, or (b) 1-4 real Server workers under a swept wall clock with up to 64 competing requests so that batches form; non-trivial = the client received at least one response; distinct = distinct schedule fingerprints",
+        rule: "every batch position (path depth 0..=6 x every index below 2^depth = 127 positions) x protocol x key option none/hex/base64 = 762 cases is enumerated completely against the reference responder; the remaining evaluations sample: one evaluation = one simulated execution of the real client main() (seeded -p 0|13, -k none|hex|base64, -n 1..8, -z or explicit -f, -j/-v) against (a) an honest reference responder that signs a chosen midpoint (epoch..year 9999) and places each request at a chosen index 0..63 of a batch of depth 0..6, or (b) 1-4 real Server workers under a swept wall clock with up to 64 competing requests so that batches form; non-trivial = the client received at least one response; distinct = distinct schedule fingerprints",
         assumptions: &["TZ is pinned to UTC; runs without -z use a format without %Z", "independent civil-time formatter (refimpl::time) is the output oracle"],
         real: REAL_C,
         stub: STUB,
